@@ -38,6 +38,8 @@ def parse_out(line):
             o['U'] = sec[2:]
         elif sec.startswith('I '):
             o['I'] = sec[2:]
+        elif sec.startswith('S '):
+            o['S'] = sec[2:]
     return o
 
 def model_line(case, dump):
